@@ -7,7 +7,7 @@ Model: coq/theories/Model/Lookup.v (executable).  Tie to the code, re-establishe
   the bin classes (_SingleValueBin, _SingleValueStrictBin, _ContainerBin) with the registrations of _mapper_types /
   register_container, TwoWayMap.insert (with its rollback) / remove / remove_left / remove_right / clear; lookup.py:
   _make_row_key_map (bin kinds), get_mapped_keys, update_record and remove_row_id of SimpleLookupMapping and
-  ContainsLookupMapping, lookup_by_key, LookupMapColumn._do_fast_lookup / _do_lookup_with_sort /
+  ContainsLookupMapping (also get_new_keys_iter: key product, match_empty), lookup_by_key, LookupMapColumn._do_fast_lookup / _do_lookup_with_sort /
   _reset_sorted_versions.  Proofs/LookupGen_proofs.v proves every translated function equal to the model function the
   C13 theorems speak about (Props/C13.v: C13_gen_*), so a semantic edit of these functions breaks a proof obligation.
   The translated functions run over the primitives of Model/LookupRt.v (dict access, the sorted_versions dict of a
@@ -55,8 +55,7 @@ TRUSTED = ['harness/lk2v.py (Python subset -> Gallina in a state+exception monad
            'pop on an empty dict, in-place update of a stored container, LookupSet.sorted_versions access, sorted(), set()) '
            'and the binding of the translation (a rec is (row id, cells of the lookup columns); relation bookkeeping calls '
            'have no effect on the index)',
-           'hand-written and tied only differentially (levels C, D): ContainsLookupMapping.get_new_keys_iter '
-           '(new_keys_iter: key product with match_empty), sort_key.SortKey.__lt__ / make_sort_key (sortkey_lt, sort_values), '
+           'hand-written and tied only differentially (levels C, D): sort_key.SortKey.__lt__ / make_sort_key (sortkey_lt, sort_values), '
            'Python == / hash on values (val_eqb, hashable)',
            'column type conversion of lookup keys (col.convert) and rich cell values (get_cell_value) are taken from '
            'the implementation (kernel V), not modelled here',
@@ -80,7 +79,7 @@ LEVEL_TEXT = ('Kernel-checked theorems for all op sequences and keys: TwoWayMap 
               'functions for make_sort_spec, the bin classes, TwoWayMap, the lookup mappings and the sorted-versions logic '
               'are proved equal to the code translated from the source on every run.')
 LEVEL_NOTE = ('Trusted: Coq kernel; the lk2v translator and the runtime primitives of LookupRt.v; the hand-written parts '
-              '(get_new_keys_iter, SortKey.__lt__, ==/hash of values) validated differentially on every run; key type '
+              '(SortKey.__lt__, ==/hash of values) validated differentially on every run; key type '
               'conversion and rich values come from the implementation.')
 
 UNSUPPORTED = 'unsupported'
@@ -335,7 +334,12 @@ Definition op_obs_gen (cols : list colspec) (m : lmap) (o : op) : lmap * obs :=
         match gen_contains_remove_row_id r m with Ok ks m' => (m', ObsKeys ks) | Exc _ m' => (m', ObsErr) end
       else match gen_simple_remove_row_id r m with Ok ks m' => (m', ObsKeys (somes ks)) | Exc _ m' => (m', ObsErr) end
   | OReset cells s =>
-      match gen_reset_sorted_versions cols 0 cells s m with Ok ks m' => (m', ObsKeys ks) | Exc _ m' => (m', ObsErr) end
+      (* the reported keys are set(get_new_keys_iter(rec)): taken here from the translated get_new_keys_iter *)
+      let it := if uses_contains cols
+                then match gen_contains_get_new_keys_iter cols 0 cells [] with Ok ks _ => ks | Exc _ _ => [] end
+                else match gen_simple_get_new_keys_iter cols 0 cells tt with Ok ks _ => ks | Exc _ _ => [] end in
+      match gen_reset_sorted_versions cols 0 cells s m with
+      | Ok _ m' => (m', ObsKeys (dedup vals_eqb it)) | Exc _ m' => (m', ObsErr) end
   | OLookup k s t =>
       match gen_do_lookup_with_sort t k s m with Ok (l, _) m' => (m', ObsRes (LRows l)) | Exc _ m' => (m', ObsRes LError) end
   end.
